@@ -100,6 +100,7 @@ cfg = {
         {'target': 'direct'},
     ],
     'metrics': {'bind': f'127.0.0.1:{ap}', 'ui': None, 'historySize': 100000},
+    'accessLog': {'path': 'access.log', 'format': 'json'},
     'ioParams': {'bufferSize': 4096, 'useSplice': True},
 }
 px = Proxy(cfg, 'c19')
@@ -556,6 +557,95 @@ for kind in ('http', 'socks5'):
         t.join(0.1)
     if not control_ok():
         # the control tunnel itself died: re-open for what follows
+        control = control_open()
+
+# ---- an origin that carries a few hundred tunnels is reset: every one of them fails cleanly - client disconnected,
+#      error (or end) recorded in the history AND in the access log (they all end within one pass of the collector)
+if px.alive():
+    evals += 1
+    NT = 300
+    up = ups['direct']
+    def opener(i):
+        try:
+            s, code, head, rest = http_connect(hp, target_for('direct'), timeout=6)
+            if code != 200:
+                s.close()
+                return None
+            s.sendall(b'hi'); 
+            if recv_exact(s, 2, 4) != b'hi':
+                s.close()
+                return None
+            return s
+        except OSError:
+            return None
+    tunnels = [t for t in run_parallel(list(range(NT)), opener, workers=16) if isinstance(t, socket.socket)]
+    ports = {t.getsockname()[1] for t in tunnels}
+    if len(tunnels) < NT * 0.9:
+        machinery(f'mass outage: only {len(tunnels)} of {NT} tunnels could be opened')
+    # (the origin's handler threads sit in recv(): a close() from here does not take effect before they return - wake them)
+    with up.o.lock:
+        for r_ in up.o.conns:
+            try:
+                r_['sock'].setsockopt(socket.SOL_SOCKET, socket.SO_LINGER, struct.pack('ii', 1, 0))
+                r_['sock'].shutdown(socket.SHUT_RD)
+            except OSError:
+                pass
+    up.stop(rst=True)
+    t0 = time.time()
+    still = list(tunnels)
+    while still and time.time() - t0 < 6:
+        nxt = []
+        for t in still:
+            t.settimeout(0.01)
+            try:
+                if t.recv(100) != b'':
+                    nxt.append(t)
+            except socket.timeout:
+                nxt.append(t)
+            except OSError:
+                pass
+        still = nxt
+        if still:
+            time.sleep(0.1)
+    for t in tunnels:
+        try: t.close()
+        except OSError: pass
+    up.start()
+    time.sleep(2.5)
+    px.api('POST', '/logrotate', '')
+    time.sleep(0.5)
+    logged = set()
+    import glob as _glob
+    for f in _glob.glob(os.path.join(px.dir, 'access.log*')):
+        for line in open(f, errors='replace'):
+            try:
+                rec = json.loads(line)
+                sp = int(str(rec.get('source', '')).rsplit(':', 1)[1])
+            except Exception:
+                continue
+            if sp in ports and str(rec.get('target', '')).endswith(f':{up.port}'):
+                logged.add(sp)
+    st, body = px.api('GET', '/history')
+    hist = set()
+    if st == 200:
+        for rec in json.loads(body):
+            try:
+                sp = int(str(rec.get('source', '')).rsplit(':', 1)[1])
+            except Exception:
+                continue
+            if sp in ports and str(rec.get('target', '')).endswith(f':{up.port}'):
+                hist.add(sp)
+    distinct.add(('mass-outage', len(still) == 0, len(logged) == len(ports), len(hist) == len(ports)))
+    if still:
+        chk.violation('recovery.open-tunnels', 'tunnel-across-outage-not-closed:direct/mass-reset', f'{len(still)} of {len(tunnels)} tunnels to an origin that was reset were still open 6 s later', {'open': len(still)})
+    if len(hist) != len(ports):
+        chk.violation('recovery.open-tunnels', 'tunnel-across-outage-not-recorded:history', f'{len(ports) - len(hist)} of {len(ports)} tunnels broken by the reset of their origin have no record in the history', {})
+    if len(logged) != len(ports):
+        chk.violation('recovery.open-tunnels', 'tunnel-across-outage-not-recorded:access-log', f'{len(ports) - len(logged)} of {len(ports)} tunnels broken by the reset of their origin have no record in the access log (after a rotation)', {'logged': len(logged), 'tunnels': len(ports)})
+    if not probe('direct'):
+        chk.violation('recovery.resume', 'no-service-after-upstream-returned:direct/mass-reset', 'no tunnel after the origin was back', {})
+    samples.append({'mass_outage': {'tunnels': len(tunnels), 'logged': len(logged), 'in_history': len(hist), 'left_open': len(still)}})
+    if not control_ok():
         control = control_open()
 
 # ---- many requests fail while the upstream is away, over repeated outages: whatever a connector keeps per failed
